@@ -150,6 +150,19 @@ def _emit_asm(inst, ins, asm):
             if inst.resumable and inst.tso_here():
                 body.append('rt_sb_drain(%d);' % slot)
 
+    if em.spec.get('asm_contract'):
+        # C20: the contract the asm statement gives the COMPILER is part of the operation's meaning (this encoding takes the code as
+        # clang compiled it and cannot bound what another compiler may do with a wrong contract, so it is checked where the
+        # instruction is executed).
+        if mn in ('xchg', 'cmpxchg', 'xadd') and locked and '~{memory}' not in asm.cons.split(','):
+            # xchg / cmpxchg / add_return are documented full barriers: that includes the compiler
+            body.append('RT_ASSERT(0, "%s%s: documented as a full memory barrier but the asm statement has no memory clobber (the compiler may move or cache memory accesses across it)");' % (mn, suf))
+        mo = ops[mems[0]]
+        if mo['out'] and not mo['cons'].startswith('+') and not any((not q['out']) and q['ind'] and q['arg'] is mo['arg'] or
+                                                                    ((not q['out']) and q['ind'] and inst.v(q['arg']) == inst.v(mo['arg'])) for q in ops):
+            # every instruction of this table reads its memory operand; an output-only ("=m") operand tells the compiler the old
+            # content is dead, so it may discard the store that initialised the object
+            body.append('RT_ASSERT(0, "%s%s reads its memory operand but the asm statement declares it write-only (=m): the compiler may discard the preceding store to the object");' % (mn, suf))
     if mn == 'xchg':
         regn = [n for n in nums if not ops[n]['ind']][0]
         begin('xchg%s' % suf)
